@@ -16,7 +16,7 @@ def _alarm(signum, frame):
     raise CaseTimeout()
 
 
-CASE_SECONDS = int(os.environ.get('VERIF_CASE_SECONDS', '120'))
+CASE_SECONDS = int(os.environ.get('VERIF_CASE_SECONDS', '30'))
 
 
 def run_one(mod, line):
